@@ -137,7 +137,9 @@ int main(int argc, char **argv) {
         if (mode && !shim_config) { puts("no-shim"); continue; }
         int fds[2];
         if (pipe(fds)) abort();
-        if (data.size() + 4096 > 65536) fcntl(fds[1], F_SETPIPE_SZ, (int)(data.size() + 4096));
+        if (data.size() + 4096 > 65536) {
+          if (fcntl(fds[1], F_SETPIPE_SZ, (int)(data.size() + 4096)) < (int)data.size()) { puts("pipe-too-small"); close(fds[0]); close(fds[1]); continue; }
+        }
         size_t off = 0;
         while (off < data.size()) { ssize_t w = write(fds[1], data.data() + off, data.size() - off); if (w <= 0) abort(); off += w; }
         close(fds[1]);
